@@ -4,6 +4,7 @@ import Proofs.Lemmas.Run
 import Proofs.C20Sites
 import Generated.C20MapRanges
 import Generated.C20PkgState
+import Generated.C20Resets
 /-!
 # C20 — sequential programs are deterministic and leave nothing behind for the next VM
 
@@ -251,6 +252,61 @@ example : Disc (fun _ : String => True) [] (.write "userOutputEmitted" 0 (.read 
 example : after (.write "ini" 3 (.done 0)) (.write "ini" 14 (.read "ini" (fun v => (.done v : Prog String Nat Nat)))) (fun _ => 14) = 14 := by
   decide
 
+/-! ### a reset on the entry path — and what happens when it is put under a condition -/
+
+theorem disc_resetThen {C V O : Type} [DecidableEq C] (D : C → Prop) (rs : List (C × V)) (k : Prog C V O) :
+    ∀ W, Disc D ((rs.map Prod.fst).reverse ++ W) k → Disc D W (resetThen rs k) := by
+  induction rs with
+  | nil => intro W h; simpa [resetThen] using h
+  | cons a r ih =>
+    intro W h
+    obtain ⟨c, v⟩ := a
+    simp only [resetThen, Disc]
+    apply ih
+    simpa [List.map_cons, List.reverse_cons, List.append_assoc] using h
+
+/-- **Resets at the start of a run.** A run that first stores fixed values into the cells `rs` —
+unconditionally, before anything else — and afterwards reads, of the cells earlier programs may have
+dirtied, only those (or ones it has written itself meanwhile), behaves the same whatever ran before
+in the process. This is the shape `C20_resets_unconditional` checks on the source: the reset lies
+directly in the body of `LoadAndRun` / `php.Load`. -/
+theorem C20_entry_reset_no_residue {C V O : Type} [DecidableEq C] (D : C → Prop) (rs : List (C × V))
+    (k : Prog C V O) (hk : Disc D (rs.map Prod.fst).reverse k) (s₁ s₂ : Store C V)
+    (hs : ∀ c, ¬ D c → s₁ c = s₂ c) :
+    (Model.Run.run (resetThen rs k) s₁).1 = (Model.Run.run (resetThen rs k) s₂).1 :=
+  C20_no_residue D _ (disc_resetThen D rs k [] (by simpa using hk)) s₁ s₂ hs
+
+/-- **A guard that holds on every fresh VM is harmless.** When the test of the guard cell succeeds
+in the store the run starts from (the include cache of a VM that has run nothing is empty), the
+guarded reset is the unconditional one. This is what the `guards` column of
+`C20Sites.resetSpecs` claims for `if vm.GetPhpFileCache(file)`; the claim itself is by hand. -/
+theorem C20_guarded_reset_when_guard_holds {C V O : Type} [DecidableEq C] (g c : C) (test : V → Bool) (v : V)
+    (k : Prog C V O) (s : Store C V) (hg : test (s g) = true) :
+    Model.Run.run (guardedReset g test c v k) s = Model.Run.run (.write c v k) s := by
+  simp [guardedReset, Model.Run.run, hg]
+
+/-- **Negation witness: a reset under a condition that can fail.** Put the reset under a test of
+some other state and there are two stores that differ only in the dirty cell on which the run shows
+different results: whenever the test fails the previous program's value is read. (`if
+vm.isEntryScript() { data.ResetUserOutput() }` evaluated after the file was registered: the test
+never succeeds, the flag set by an earlier program's `echo` reaches the next program's fatal-error
+printer.) -/
+theorem C20_guarded_reset_counterexample :
+    ¬ (∀ (g c : Bool) (test : Nat → Bool) (s₁ s₂ : Store Bool Nat), (∀ x, x ≠ c → s₁ x = s₂ x) →
+        (Model.Run.run (guardedReset g test c 0 (.read c (fun v => (.done v : Prog Bool Nat Nat)))) s₁).1 =
+        (Model.Run.run (guardedReset g test c 0 (.read c (fun v => (.done v : Prog Bool Nat Nat)))) s₂).1) := by
+  intro h
+  have := h true false (fun n => n == 0) (fun x => if x then 1 else 0) (fun x => if x then 1 else 7)
+    (by intro x hx; cases x <;> simp at hx ⊢)
+  simp [guardedReset, Model.Run.run] at this
+
+example : (Model.Run.run (resetThen [("userOutputEmitted", 0)] (.read "userOutputEmitted" (fun v => (.done v : Prog String Nat Nat)))) (fun _ => 1)).1 = 0 := by
+  decide
+
+example : Disc (fun c : String => c = "userOutputEmitted") (([("userOutputEmitted", 0)] : List (String × Nat)).map Prod.fst).reverse
+    (.read "userOutputEmitted" (fun v => (.done v : Prog String Nat Nat))) := by
+  simp [Disc]
+
 /-! ## obligations on the regenerated facts -/
 
 /-- **Obligation (regenerated every run).** Every `for … range <map>` of the packages in scope is
@@ -267,6 +323,34 @@ theorem C20_map_ranges_classified :
 `C20Sites.cells`, and none `leaks` unless it is a listed known finding. -/
 theorem C20_pkg_state_classified :
     C20Sites.badCells C20Sites.cells C20Sites.KnownCells Generated.C20PkgState.cells = [] := by
+  decide
+
+/-- **Obligation (regenerated every run): the resets still happen on every run.** For every cell
+whose discipline is `resetBeforeRead` / `restoredAtEnd` the table `C20Sites.resetSpecs` names the
+place that keeps it clean; the regenerated source facts contain that place, directly in the body of
+its function (enclosing conditions exactly as listed — normally none), preceded by no way out of the
+function other than the listed guards; and no such cell is without a place. A reset that is
+removed, put under a condition, or put behind a new early return makes this fail. -/
+theorem C20_resets_unconditional :
+    C20Sites.badResets C20Sites.cells C20Sites.resetSpecs Generated.C20Resets.uses = [] ∧
+    Generated.C20Resets.shape = [] := by
+  decide
+
+/-- **Obligation (regenerated every run): every observer is probed.** Every function that reads a
+reset-per-run cell which a script can leave in more than one state has a clean channel listed whose
+`B` side reaches it (the harness checks that the named channels exist and runs them on every run).
+A new reader of such a cell makes this fail until a probe is written for it. -/
+theorem C20_reset_observers_probed :
+    C20Sites.unprobed C20Sites.cells C20Sites.probes Generated.C20Resets.uses = [] := by
+  decide
+
+/-- **Obligation (regenerated every run): the entry path is the one the in-process runner mirrors.**
+The functions a command-line run goes through around the script (`zy.go init`, `cmd.getRuntimeVM`,
+`cmd.RunScriptFile`, `runtime.NewVM` with its default throw control, `VM.LoadAndRun`,
+`VM.RunShutdownCallbacks`, `runHeaderCallbacks`) make exactly the calls, in the order and under the
+conditions, that `C20Sites.expectedEntry` records and `harness/c20/runner.go` reproduces. -/
+theorem C20_entry_path_as_mirrored :
+    C20Sites.entryDiff Generated.C20Resets.entry C20Sites.expectedEntry = none := by
   decide
 
 end C20
